@@ -347,6 +347,12 @@ func check(prop, tier string) int {
 	jobs := make([]*Job, nWorkers)
 	replayDir := filepath.Join(verifRoot, "replays")
 	os.MkdirAll(replayDir, 0o755)
+	// replay files of earlier runs of this check are stale by definition
+	if old, _ := filepath.Glob(filepath.Join(replayDir, prop+"-*.json")); len(old) > 0 {
+		for _, f := range old {
+			os.Remove(f)
+		}
+	}
 	wall := plan.QuickWallS
 	if tier == "thorough" {
 		wall = plan.ThoroughWallS
